@@ -84,6 +84,9 @@ type Options struct {
 	ConfigFile string   `json:"config_file,omitempty"`
 	Verbose    bool     `json:"verbose,omitempty"`
 	Debug      bool     `json:"debug,omitempty"`
+	// RulesHook selects a LinterOptions.OnRulesCreated hook: "tools-first" moves the shellcheck and
+	// pyflakes rules to the front of the list, "tools-only" keeps only them.
+	RulesHook string `json:"rules_hook,omitempty"`
 	WorkingDir string   `json:"working_dir,omitempty"` // LinterOptions.WorkingDir (may differ from the process cwd)
 }
 
@@ -258,6 +261,22 @@ func lintOnce(w *World, res *LintResult, shared *sharedLinter) {
 			Debug:          w.Opts.Debug,
 			WorkingDir:     w.Opts.WorkingDir,
 			LogWriter:      &lockedWriter{b: &errb},
+		}
+		if hook := w.Opts.RulesHook; hook != "" {
+			opts.OnRulesCreated = func(rules []actionlint.Rule) []actionlint.Rule {
+				var tools, rest []actionlint.Rule
+				for _, r := range rules {
+					if r.Name() == "shellcheck" || r.Name() == "pyflakes" {
+						tools = append(tools, r)
+					} else {
+						rest = append(rest, r)
+					}
+				}
+				if hook == "tools-only" {
+					return tools
+				}
+				return append(tools, rest...)
+			}
 		}
 		var l *actionlint.Linter
 		var err error
